@@ -436,7 +436,7 @@ theorem coherent_trim : ∀ (fuel : Nat) {h h' : Hist K}, Coherent h → trim fu
     subst hok
     exact ⟨hc, rfl, rfl, rfl, fun e => e⟩
   | fuel + 1, h, h', hc, hok => by
-    unfold trim at hok
+    rw [trim_succ] at hok
     split at hok
     · obtain ⟨h1, hs, hok⟩ := bind_eq_ok hok
       obtain ⟨c1, m1, x1, p1, n1, _⟩ := coherent_trimStep hc hs
@@ -465,7 +465,7 @@ theorem takeWhile_length_lt {α : Type} (p : α → Bool) : ∀ (l : List α) (b
 
 theorem locate_idx_lt {bins : List (K × K)} {v : K} (hne : bins ≠ []) (hn : (locate bins v).1 = false) :
     (locate bins v).2 < bins.length := by
-  unfold locate at hn ⊢
+  rw [locate_def] at hn ⊢
   cases hh : bins.head? with
   | none => simp at hh; exact absurd hh hne
   | some b0 =>
@@ -509,14 +509,14 @@ theorem coherent_insertTrim {h h' : Hist K} {neg : Bool} {idx : Nat} {v c : K} (
 /-- **One `update` keeps the cache coherent** (and the limit). -/
 theorem coherent_update {h h' : Hist K} {v c : K} (hc : Coherent h) (hok : update h v c = .ok h') :
     Coherent h' ∧ h'.cap = h.cap := by
-  unfold update at hok
+  rw [update_def] at hok
   split at hok
   · simp at hok
   have key : afterHit h (locate h.bins v).1 (locate h.bins v).2 v c = .ok h' → Coherent h' ∧ h'.cap = h.cap := by
     intro ha
     have hidx : (locate h.bins v).1 = false → h.bins ≠ [] → (locate h.bins v).2 < h.bins.length :=
       fun hn hne => locate_idx_lt hne hn
-    unfold afterHit at ha
+    rw [afterHit_def] at ha
     split at ha
     · obtain ⟨h1, hcd, ha⟩ := bind_eq_ok ha
       have hh1 : Coherent h1 ∧ h1.bins = h.bins ∧ h1.cap = h.cap := by
